@@ -90,8 +90,8 @@ EvSame == /\ Ev("same")
 (* C18: hash_stream over a scripted reader.  E.g holds exactly the bytes the reader delivered
    before it reported end of file (used only when no error is expected); E.n = payload length *)
 EvStream == /\ Ev("stream")
-            /\ LET w == S!Walk(E.script, 1, 0, E.n) IN
-               Expect(/\ E.reads = w.reads /\ E.reads_after_error = 0
+            /\ LET w == S!WalkB(E.script, 1, 0, E.n, E.bl) IN       \* E.bl: the buffer length the reader saw
+               Expect(/\ E.bl > 0 /\ E.reads = w.reads /\ E.reads_after_error = 0
                       /\ IF w.io THEN E.r.e = "io" /\ E.r.kind = w.kind /\ E.r.id = w.id
                          ELSE /\ gens[E.g].ref.size = G!SzOf(w.pos)
                               /\ Same(J(G!RFin(gens[E.g].ref, TRUE, FALSE)), E.r),
